@@ -322,6 +322,84 @@ def scenario_deluser(rng):
     return out
 
 
+def scenario_cross(rng):
+    """crossings (C14): requests are dispatched and held in the queues of the hub and of a group topic while the topic's owner deletes
+    it, its idle timer fires or the connection of the requester drops; the hub and the topic then take their queues one message at
+    a time, in an order drawn at random - which queue a `select` serves next is the scheduler's choice -, and everything settles"""
+    out = _preamble(rng)
+    for s in ("S1", "S2", "S3"):
+        if rng.chance(1, 2):
+            out.append(f"sub {s} me")
+    nt = 0
+    for _ in range(1 + rng.below(3)):
+        nt += 1
+        T = f"T{nt}"
+        out.append("newgrp S1" + rng.choice(["", "", " auth=JRWPS anon=JR"]))
+        att = ["S1"]
+        for s in ("S2", "S4", "S3"):
+            if rng.chance(2, 3):
+                out.append(f"sub {s} {T}")
+                att.append(s)
+        if rng.chance(1, 2):
+            out.append(f"pub S1 {T} C{nt}")
+        idle = rng.chance(1, 4)
+        if idle:
+            # the topic goes idle: everybody leaves, the timer may fire
+            for s in att:
+                out.append(f"leave {s} {T}")
+            att = []
+        free = [s for s in ("S2", "S3", "S5", "S6", "S7") if s not in att]
+        holds = []
+        for _ in range(1 + rng.below(3)):
+            k = rng.below(10)
+            if k < 5 and free:
+                x = rng.choice(free)
+                holds.append(f"hold sub {x} {T}" + rng.choice(["", "", " mode=JRWP", " mode=N"]))
+            elif k < 8 and att:
+                x = rng.choice(att)
+                holds.append(f"hold leave {x} {T}" + rng.choice(["", "", " unsub=1"]))
+            elif att:
+                x = rng.choice(att)
+                holds.append(f"hold pub {x} {T} X{len(holds)}")
+        killer = rng.choice(["deltopic", "deltopic", "deltopic hard", "unload", "drop", "none", "deltopic other"])
+        if killer == "drop":
+            # the connection of a session drops while its own {sub} or {leave} is in flight: nothing else is held meanwhile
+            holds = [h for h in holds if h.split(" ")[1] in ("sub", "leave")][:1]
+            if not holds:
+                killer = "none"
+        for h in holds:
+            out.append(h)
+            if h.startswith("hold sub") and rng.chance(2, 3):
+                out.append("hubstep")           # the hub hands the request to the topic
+        if killer.startswith("deltopic"):
+            who = "S2" if killer.endswith("other") else rng.choice(["S1", "S1", "S4"])
+            out.append(f"hold deltopic {who} {T}" + (" hard=1" if killer.endswith("hard") else ""))
+        elif killer == "unload":
+            out.append(f"hold unload {T}")
+        elif killer == "drop":
+            x = [h.split(" ")[2] for h in holds if h.split(" ")[1] in ("sub", "leave")]
+            out.append(f"drop {rng.choice(x) if x else 'S2'}")
+        if rng.chance(3, 4):
+            out.append("hubstep")
+        for _ in range(rng.below(5)):
+            out.append(f"tstep {T} {rng.choice(['reg', 'unreg', 'pub', 'exit', 'exit', 'reg'])}")
+        # whatever is left is taken one message at a time too (a step which finds its queue empty says so and does nothing), so that
+        # every request is handled on a line of its own; `settle` is the safety net
+        out.append("hubstep")
+        for q, k in (("reg", "sub"), ("unreg", "leave"), ("pub", "pub")):
+            for h in holds:
+                if h.split(" ")[1] == k:
+                    out.append(f"tstep {T} {q}")
+        out.append(f"tstep {T} exit")
+        out.append("settle")
+        # afterwards: nobody is stuck, the topic is what the store says
+        out += [f"sub S3 {T}", f"pub S2 {T} Y{nt}", f"get S2 {T} desc", f"leave S3 {T}", f"sub S5 {T}", "sub S6 me"]
+        if rng.chance(1, 3):
+            out.append("restart")
+    out.extend(settle(["U1", "U2", "U3", "U4"], nt))
+    return out
+
+
 def settle(users, ntop):
     """activity settles: the deferred (background) session comes to the foreground and every idle topic is unloaded - the p2p and
     group topics first, the users' `me` topics last (a topic which still has a session answers `busy`)"""
@@ -692,6 +770,10 @@ def gen_world(rng, tier):
         crashes = c % 3 == 2
         for l in gen_case(rng, 30 + rng.below(90), faults=faults, crashes=crashes):
             yield l
+        if i % 6 == 1:
+            # crossings are extra too (a generator of their own)
+            for l in scenario_cross(rng.fork(f"cross-scenario-{i}")):
+                yield l
         if i % 12 == 5:
             # the histories around a deleted account are extra: drawn from a generator of their own, the rest of the stream is unchanged
             for l in scenario_deluser(rng.fork(f"deluser-scenario-{i}")):
